@@ -367,7 +367,14 @@ impl<'s, M: Matcher, S: Sink> Core<'s, M, S> {
             }
             Some(line) => {
                 let range = Range::new(self.pos(), line.start());
-                self.set_pos(line.end());
+                if self.config.stop_on_nonmatch && !range.is_empty() {
+                    // The line found does not match (we're inverted) and it
+                    // follows matching lines. Leave it to the slow path,
+                    // which knows when to stop.
+                    self.set_pos(line.start());
+                } else {
+                    self.set_pos(line.end());
+                }
                 range
             }
         };
